@@ -261,7 +261,8 @@ def r_anchors(ctx):
         got = []
 
         def on_call(kind, nm, node, a, recv, got=got):
-            if kind == "fn" and nm == "cb":
+            cur = absint.CURRENT
+            if kind == "fn" and nm and "::" not in nm and (nm == "cb" or (cur is not None and cur.lookup(nm) == ("callback",))):
                 got.append((a[0], a[1]))
                 return ("tuple", [])
             if kind == "fn" and nm == "entry_tight_end":
@@ -271,7 +272,14 @@ def r_anchors(ctx):
             if kind == "fn" and nm == "line_of_byte" and isinstance(a[1], int):
                 return line(a[1])
             if kind == "fn" and nm in R.fns:
-                return R._run(R.fns[nm], None, a, 1)
+                # a helper of the bridge (e.g. one that emits both slots): interpreted with the same callbacks
+                g = R.fns[nm]
+                pn = [inp["pat"]["n"] if inp.get("pat", {}).get("k") == "pid" else None for inp in g.node["sig"]["inputs"]]
+                sub = Interp(env={n: v for n, v in zip(pn, a) if n}, on_call=on_call)
+                try:
+                    return sub.block(g.node["body"])
+                except Return as r:
+                    return r.v
             return NotImplemented
         names = [inp["pat"]["n"] if inp.get("pat", {}).get("k") == "pid" else None for inp in fi.node["sig"]["inputs"]]
         env = dict(zip(names, [entry, ("str", text), ("callback",)]))
